@@ -184,6 +184,18 @@ func c17Units(tier string) []hx.Unit {
 				}})
 		}
 	}
+	// the bid cache: a beacon node's bid request for a slot that has an entry already, next to an auction for the same
+	// slot on another head (a second beacon node, a reorg)
+	scns = append(scns, c17Scn{name: "blockrelay/bid-request+auction-same-slot", settle: int64(time.Second),
+		setup: func(ctx context.Context) []func() {
+			svc, v1, v2 := c17BlockRelay(ctx, []string{"A", "A"})
+			_, _ = svc.AuctionBlock(ctx, 3300, phase0.Hash32{1}, v1.pubkey())
+			return []func(){
+				func() { _, _ = svc.BuilderBid(ctx, 3300, phase0.Hash32{1}, v1.pubkey()) },
+				func() { _, _ = svc.AuctionBlock(ctx, 3300, phase0.Hash32{2}, v2.pubkey()) },
+				func() { _, _ = svc.BuilderBid(ctx, 3300, phase0.Hash32{2}, v2.pubkey()) },
+			}
+		}})
 	scns = append(scns, c17MoreScenarios()...)
 	scns = append(scns, c17StrategyScenarios()...)
 	var units []hx.Unit
